@@ -6,7 +6,7 @@
    explicit idealisation of the primitives, stated as hypotheses of the theorem.
    [wf_bytes b]: every element of b is < 256 (what a Go []byte can hold). *)
 From Verif Require Import Lib.Base Lib.Sx Model.Jose.
-From Verif Require Import Proofs.Jose Proofs.JoseCompact Proofs.JoseCipher Proofs.JoseWrap Proofs.JoseWrapLoop Proofs.JoseFixed Proofs.JoseGlue Proofs.JoseIdeal.
+From Verif Require Import Proofs.Jose Proofs.JoseCompact Proofs.JoseCipher Proofs.JoseWrap Proofs.JoseWrapLoop Proofs.JoseFixed Proofs.JoseGlue Proofs.JoseIdeal Proofs.JoseJson.
 Open Scope N_scope.
 
 (* ---------------------------------------------------------------- base64url (encoding.go) *)
@@ -45,6 +45,63 @@ Theorem c16_json_members :
      jwe_of_b64 (b64url_encode (je_prot o)) (b64url_encode (je_key o)) (b64url_encode (je_iv o))
                 (b64url_encode (je_ct o)) (b64url_encode (je_tag o)) = Ok o).
 Proof. split; [exact jws_of_b64_enc|exact jwe_of_b64_enc]. Qed.
+
+(* ---------------------------------------------------------------- flattened / general JSON serializations *)
+(* encoding/json is an ORACLE: a JSON text is abstracted to the object the raw structs see (members
+   as an association list: strings, header objects, arrays of inner objects); json_enc / json_dec and
+   hdr_dec (the protected header's JSON) are arbitrary functions with the round-trip hypotheses
+   written in the theorem.  FullSerialize then ParseSigned returns the payload and, for EVERY
+   signature in order (one -> flattened, two or more -> general serialization), the original
+   protected bytes, their parsed value, the unprotected header and the signature.
+   wf_jws_obj: well-formed bytes, at least one signature, no nonce in an unprotected header, and
+   each non-empty protected header decodes to its value. *)
+Theorem c16_json_jws hdr_dec json_enc json_dec :
+  (forall o, json_dec (json_enc o) = Some o) ->
+  (forall o, strip_ws (json_enc o) = json_enc o /\ starts_with_brace (json_enc o) = true) ->
+  forall o, wf_jws_obj hdr_dec o ->
+  parse_signed_json json_dec hdr_dec (json_enc (jws_full o)) = Ok (jo_payload o, map view_sig (jo_sigs o)).
+Proof. exact (parse_signed_full_serialize hdr_dec json_enc json_dec). Qed.
+
+(* likewise FullSerialize then ParseEncrypted, for one recipient (flattened) and for two or more
+   (general): protected bytes and value, shared unprotected header, every recipient's header and
+   encrypted key in order, AAD, IV, ciphertext, tag; and the decrypter's AAD is computed from the
+   protected bytes as received.  wf_jwe_obj: non-empty protected header decoding to its value, no
+   nonce in unprotected headers, at least one recipient, alg and enc present in every recipient's
+   merged header (the parser rejects the object otherwise). *)
+Theorem c16_json_jwe hdr_dec json_enc json_dec :
+  (forall o, json_dec (json_enc o) = Some o) ->
+  (forall o, strip_ws (json_enc o) = json_enc o /\ starts_with_brace (json_enc o) = true) ->
+  forall o, wf_jwe_obj hdr_dec o ->
+  parse_encrypted_json json_dec hdr_dec (json_enc (jwe_full o)) = Ok (view_jwe o) /\
+  pjwe_aad (view_jwe o) = aad_input (eo_prot o) (if is_nil (eo_aad o) then None else Some (eo_aad o)).
+Proof.
+  intros R T o W. split; [exact (parse_encrypted_full_serialize hdr_dec json_enc json_dec R T o W)|reflexivity].
+Qed.
+
+(* header merging as the code does it (rawHeader.merge, mergedHeaders): for every header field the
+   protected value wins when it is set, then the shared unprotected header, then the per-recipient
+   header.  The code does NOT reject a name that occurs in several headers (RFC 7515 4 / 7516 4
+   require disjoint names); it only never lets an unprotected value override a protected one. *)
+Theorem c16_header_merge :
+  (forall ph oh k, In k hdr_fields ->
+     hget (merged [Some ph; oh]) k = (if is_nil (hget ph k) then hget_opt oh k else hget ph k)) /\
+  (forall ph u r k, In k hdr_fields ->
+     hget (merged [Some ph; u; r]) k =
+     (if is_nil (hget ph k) then (if is_nil (hget_opt u k) then hget_opt r k else hget_opt u k) else hget ph k)) /\
+  (forall s ph, ps_phdr s = Some ph -> hget ph n_alg <> [] -> hget (psig_merged s) n_alg = hget ph n_alg).
+Proof. split; [exact merged_protected_wins|]. split; [exact merged3|exact verify_alg_protected]. Qed.
+
+(* multi-signature Verify: signatures with a crit header are skipped; if some signature without one
+   verifies (under ITS merged algorithm, over ITS protected bytes) the payload is returned; if none
+   does, the result is the crypto error *)
+Theorem c16_multi_signature verify payload sigs :
+  (forall s, In s sigs -> hget (psig_merged s) n_crit = [] ->
+     verify (hget (psig_merged s) n_alg) (signing_input (ps_prot s) payload) (ps_sig s) = true ->
+     jws_verify_multi verify payload sigs = Ok payload) /\
+  ((forall s, In s sigs -> hget (psig_merged s) n_crit = [] ->
+      verify (hget (psig_merged s) n_alg) (signing_input (ps_prot s) payload) (ps_sig s) = false) ->
+   jws_verify_multi verify payload sigs = Err e_crypto).
+Proof. split; [exact (jws_verify_multi_some verify payload sigs)|exact (jws_verify_multi_none verify payload sigs)]. Qed.
 
 (* only texts with exactly 3 / 5 dot-separated parts (after white space removal) are accepted *)
 Theorem c16_compact_part_count :
@@ -234,6 +291,37 @@ Proof.
   split; [exact kdf_info_injective|]. split; [exact kdf_round_input_injective|exact kdf_read_one_round].
 Qed.
 
+(* ---------------------------------------------------------------- ACME (https/acme/jws.go, crypto.go) *)
+(* key authorization = token '.' base64url(thumbprint): splitting at the dot recovers both parts
+   (tokens are base64url text and contain no dot), so it determines token and thumbprint *)
+Theorem c16_acme_key_authorization :
+  (forall token thumb, no_dot token -> split_dot (key_authorization token thumb) = [token; b64url_encode thumb]) /\
+  (forall t th t' th', no_dot t -> no_dot t' -> wf_bytes th -> wf_bytes th' ->
+     key_authorization t th = key_authorization t' th' -> t = t' /\ th = th').
+Proof. split; [exact key_authorization_split|exact key_authorization_injective]. Qed.
+
+(* the request signContent/post sends (flattened JSON of a JWS whose PROTECTED header carries alg,
+   the account jwk and the nonce; encoding/json of the header as an oracle pair): it parses back to
+   the content and one signature over exactly those protected bytes; the merged header yields the
+   nonce, alg and jwk that were signed; and a request with any other nonce has another signing input *)
+Theorem c16_acme_request hdr_enc hdr_dec sign :
+  (forall h, hdr_dec (hdr_enc h) = Some h) -> (forall h, wf_bytes (hdr_enc h) /\ hdr_enc h <> []) ->
+  (forall m, wf_bytes (sign m)) ->
+  forall alg jwk nonce content, wf_bytes content ->
+  let h := acme_header alg jwk nonce in
+  let s := {| ps_prot := hdr_enc h; ps_phdr := Some h; ps_hdr := None; ps_sig := sign (signing_input (hdr_enc h) content) |} in
+  parse_jws_full hdr_dec (jws_full (acme_request hdr_enc sign alg jwk nonce content)) = Ok (content, [s]) /\
+  hget (psig_merged s) n_nonce = nonce /\ hget (psig_merged s) n_alg = alg /\ hget (psig_merged s) n_jwk = jwk /\
+  (forall nonce', nonce' <> nonce ->
+     signing_input (hdr_enc (acme_header alg jwk nonce')) content <> signing_input (hdr_enc h) content).
+Proof.
+  intros R W S alg jwk nonce content Wc h s.
+  split; [exact (acme_request_parses hdr_enc hdr_dec R W sign S alg jwk nonce content Wc)|].
+  destruct (acme_merged_fields hdr_enc alg jwk nonce) as (A & B & C).
+  unfold s, psig_merged in *. cbn [ps_phdr ps_hdr] in *. repeat split; try assumption.
+  intros n' NE. exact (acme_nonce_bound hdr_enc hdr_dec R W alg jwk nonce n' content Wc NE).
+Qed.
+
 (* ---------------------------------------------------------------- end to end, primitives idealised *)
 (* IDEALISATION (hypothesis ideal): under the right key exactly the produced (signing input,
    signature) pair verifies.  Then sign -> CompactSerialize -> ParseSigned -> Verify returns the
@@ -394,6 +482,12 @@ Print Assumptions c16_b64_unpadded.
 Print Assumptions c16_compact_jws.
 Print Assumptions c16_compact_jwe.
 Print Assumptions c16_json_members.
+Print Assumptions c16_json_jws.
+Print Assumptions c16_json_jwe.
+Print Assumptions c16_header_merge.
+Print Assumptions c16_multi_signature.
+Print Assumptions c16_acme_key_authorization.
+Print Assumptions c16_acme_request.
 Print Assumptions c16_compact_part_count.
 Print Assumptions c16_verifier_signing_input.
 Print Assumptions c16_signing_input_injective.
